@@ -118,7 +118,7 @@ def prepare(slot_dir, repo=None):
         if not os.path.exists(p):
             raise SystemExit("EXTRACT-ERROR: lost anchor: %s (for harness file %s)" % (rel, name))
         text = open(p).read()
-        hook = ('\n#[cfg(feature = "h2_verif")]\n#[path = "%s/%s"]\nmod verif_kani;\n' % (kdst, name))
+        hook = ('\n#[cfg(feature = "h2_verif")]\n#[path = "%s/%s"]\npub(crate) mod verif_kani;\n' % (kdst, name))
         st = os.stat(p)
         with open(p, "w") as f:
             f.write(text + hook)
